@@ -243,17 +243,99 @@ func ruleR102(c *Ctx) {
 	newEmpty := LookupFunc(a.fg, "NewEmptyStack")
 	// Func.Eval
 	key := "funcGen.Func.Eval#fresh-stack"
+	newStack := LookupFunc(a.fg, "NewStack")
 	if fd := c.FuncDecl(a.fg, "Func", "Eval"); fd != nil && newEmpty != nil {
-		ok := false
+		// the stack handed to the generated function: f(<stack>) with <stack> = NewEmptyStack()[.Init(..)] / NewStack(..)
+		var recvObj types.Object
+		if fd.Recv != nil && len(fd.Recv.List) == 1 && len(fd.Recv.List[0].Names) == 1 {
+			recvObj = info.Defs[fd.Recv.List[0].Names[0]]
+		}
+		nCalls, bad := 0, ""
+		var originOK func(e ast.Expr, depth int) bool
+		originOK = func(e ast.Expr, depth int) bool {
+			e = ast.Unparen(e)
+			switch t := e.(type) {
+			case *ast.CallExpr:
+				if isCallTo(info, t, newEmpty) || (newStack != nil && isCallTo(info, t, newStack)) {
+					return true
+				}
+				// a method of Stack that returns the (re-initialised) stack: NewEmptyStack().Init(args...)
+				if sel, ok := ast.Unparen(t.Fun).(*ast.SelectorExpr); ok && a.isStack(info.TypeOf(sel.X)) && a.isStack(info.TypeOf(t)) {
+					return originOK(sel.X, depth)
+				}
+			case *ast.Ident:
+				if depth < 3 {
+					if obj := info.ObjectOf(t); obj != nil && countAssignments(info, fd.Body, obj) == 1 {
+						if as, i := definingAssign(info, fd, obj); as != nil && len(as.Lhs) == len(as.Rhs) {
+							return originOK(as.Rhs[i], depth+1)
+						}
+					}
+				}
+			}
+			return false
+		}
 		ast.Inspect(fd.Body, func(n ast.Node) bool {
-			if call, isCall := n.(*ast.CallExpr); isCall && isCallTo(info, call, newEmpty) {
-				ok = true
+			call, isCall := n.(*ast.CallExpr)
+			if !isCall || len(call.Args) != 1 {
+				return true
+			}
+			if id, ok := ast.Unparen(call.Fun).(*ast.Ident); ok && recvObj != nil && info.ObjectOf(id) == recvObj {
+				nCalls++
+				if !originOK(call.Args[0], 0) {
+					bad = nodeStr(c.Fset, call.Args[0])
+				}
 			}
 			return true
 		})
-		c.Check(ok, key, fd.Pos(), "every call of Eval creates its own value stack", "Func.Eval does not create a new stack per call: evaluations share (and, if concurrent, corrupt) one stack")
+		switch {
+		case nCalls == 0:
+			c.Undecided(key, fd.Pos(), "the call of the generated function was not found in Func.Eval")
+		case bad != "":
+			c.Violation(key, fd.Pos(), "Func.Eval runs the generated function on %s, which is not a stack created by NewEmptyStack/NewStack in this call: storage that other evaluations have used (or are using) becomes visible, an evaluation can read values it never wrote", bad)
+		default:
+			c.OK(key, fd.Pos(), "every call of Eval creates its own value stack with NewEmptyStack/NewStack")
+		}
 	} else {
 		c.Undecided(key, token.NoPos, "Func.Eval not found")
+	}
+	// stacks are assembled only by the constructors: no Stack/stackStorage literal elsewhere
+	{
+		allowed := map[string]bool{"funcGen.NewEmptyStack": true, "funcGen.NewStack": true, "funcGen.Stack.CreateFrame": true}
+		nLit := 0
+		for _, pkg := range c.RepoPkgs {
+			pinfo := pkg.TypesInfo
+			for _, f := range pkg.Syntax {
+				ast.Inspect(f, func(x ast.Node) bool {
+					cl, ok := x.(*ast.CompositeLit)
+					if !ok {
+						return true
+					}
+					t := pinfo.TypeOf(cl)
+					if !a.isStack(t) && !isNamed(t, modPath+"/funcGen", "stackStorage") {
+						return true
+					}
+					fd := c.EnclosingDecl(cl)
+					if fd == nil {
+						return true
+					}
+					nLit++
+					name := declName(pkg, fd)
+					k := fmt.Sprintf("%s#stack-literal[%d]", name, ordinalIn(fd, cl, func(y ast.Node) bool {
+						c2, ok := y.(*ast.CompositeLit)
+						return ok && (a.isStack(pinfo.TypeOf(c2)) || isNamed(pinfo.TypeOf(c2), modPath+"/funcGen", "stackStorage"))
+					}))
+					if allowed[name] {
+						c.OK(k, cl.Pos(), "stack constructor")
+					} else {
+						c.Violation(k, cl.Pos(), "a value stack is assembled outside the stack constructors: its storage can be shared with other evaluations")
+					}
+					return true
+				})
+			}
+		}
+		if nLit < 3 {
+			c.Undecided("funcGen#stack-literals", token.NoPos, "only %d stack literals found", nLit)
+		}
 	}
 	// Stack typed fields of long lived objects may be used at Generate time only
 	n := 0
